@@ -138,7 +138,7 @@ func checkC12(c *core.Check) {
 	sort.SliceStable(specs, func(i, j int) bool { return specs[i].name < specs[j].name })
 	procs, perProc := 4, 6
 	if thorough {
-		procs, perProc = 8, 12
+		procs, perProc = 16, 16
 	}
 	var chains [][]core.GenJob
 	type ref struct{ spec int }
